@@ -41,7 +41,9 @@ ASSUMPTIONS = [
 
 
 def envs(tier):
-	return [dict(preload=['gompsim.so'], env={'OMP_WAIT_POLICY': 'PASSIVE', 'GOMP_SPINCOUNT': '0', 'OMP_DYNAMIC': 'FALSE'})]
+	base = {'OMP_WAIT_POLICY': 'PASSIVE', 'GOMP_SPINCOUNT': '0', 'OMP_DYNAMIC': 'FALSE'}
+	# every fourth run under `python -O`: results must not depend on assert statements being executed
+	return [dict(preload=['gompsim.so'], env=base)] * 3 + [dict(preload=['gompsim.so'], env=dict(base, PYTHONOPTIMIZE='1'))]
 
 
 PREFIXES = ['AT', 'GC', 'ATG', 'TA', 'CG', 'AC']
